@@ -174,14 +174,6 @@ def finish(ctx: Ctx, t0: float, seed: int) -> int:
         print(f'KNOWN-FINDING: property={ctx.prop} rule={f.rule} '
               f'construct={f.construct} {f.message} [{f.loc}]')
 
-    if vacuous:
-        for r in vacuous:
-            print(f'ANALYSIS-ERROR property={ctx.prop} rule={r} matched '
-                  f'{ctx.rule_instances.get(r, 0)} instances, needs >= '
-                  f'{ctx.rule_floor[r]} (anchor vanished; rule would pass '
-                  f'vacuously)')
-        return 2
-
     if unlisted:
         with open(viol_path, 'w') as f:
             json.dump([x.to_json() for x in unlisted], f, indent=1,
@@ -192,6 +184,14 @@ def finish(ctx: Ctx, t0: float, seed: int) -> int:
                   f'construct={x.construct} at {x.loc}: {x.message}')
         print(f'VIOLATION property={ctx.prop} replay={viol_path}')
         return 1
+    if vacuous:
+        for r in vacuous:
+            print(f'ANALYSIS-ERROR property={ctx.prop} rule={r} matched '
+                  f'{ctx.rule_instances.get(r, 0)} instances, needs >= '
+                  f'{ctx.rule_floor[r]} (anchor vanished; rule would pass '
+                  f'vacuously)')
+        return 2
+
     if os.path.exists(viol_path):
         os.unlink(viol_path)
     print(f'OK property={ctx.prop} tier={ctx.tier} '
